@@ -9,6 +9,7 @@ import RV.Base.Proto
     ctor x…                    -> ok | <error>     Collection(g, head, [x…])
     append x | iadd x… | set i x | del i | clear   -> ok | <error>
     len | iter | get i | index x | contains x      -> value | <error>
+    ext                        -> IT=<list(g.items(head))> N3=<c.n3() with member k written <k>>
     snap lo hi m…              -> L=<iter> N=<len> G=<c[lo]>;…;<c[hi]> I=<index m>;… C=<m in c>;… F=<status>,<#list triples> X=<other triples>
 -/
 open RV RV.C19 RV.Proto
@@ -129,6 +130,12 @@ def stepD (d : D) : List String → D × String
       (d, s!"L={rd d .iter} N={rd d .len} G={";".intercalate gs} I={";".intercalate is} C={";".intercalate cs} "
             ++ footprint d.s.g d.h)
     | _, _, _ => (d, "bad-op")
+  | ["ext"] =>
+    -- Graph.items(head) called directly, and Collection.n3() with member k written `<k>`
+    let t := match n3 (fun k => ('<' :: (toString k).toList) ++ ['>']) d.s.g d.h with
+      | .ok cs => String.ofList cs
+      | .error e => showErr e
+    (d, s!"IT={rd d .iter} N3={t}")
   | _ => (d, "bad-op")
 
 def main : IO Unit := RV.Proto.run stepD (⟨⟨[], 1000⟩, 100⟩ : D)
